@@ -139,6 +139,39 @@ CLAIMS = {
         tech="static analysis: typed who-may-write check, path-sensitive guard/dominance checks, constant folding through module-level names, regex-AST shape of the year groups",
         ref="DESIGN.md section 2/C18",
     ),
+    "C03": dict(
+        cat="other",
+        text="Decided structurally: every list get_citations returns passed through filter_citations and then only through order-preserving "
+        "removal; filter_citations' output is a sub-sequence of sorted(citations, key=K) by loop shape (tail pops then one append of the loop "
+        "variable), de-duplicated through a dict keyed by span(); every removal is of a ReferenceCitation (each repeated pop re-tests the tail); "
+        "K is the citation's own position; scans that extend span() over a pin cite stop at the next special token.",
+        note="Not decided: that spans of distinct citations never overlap in general (value-level: how far a pin cite extends vs. where the "
+        "next token starts); idempotence beyond the structure. Tokens never overlap is C12.",
+        tech="static analysis: must-pass-through check on enumerated paths, loop-shape proof of sortedness, guard extraction for removals",
+        ref="DESIGN.md section 2/C03",
+    ),
+    "C17": dict(
+        cat="other",
+        text="Provenance of every textual metadata value (attribute stores and metadata= dictionaries in helpers/find): generated only from "
+        "groups of a match over text that match_on_tokens assembles from tokens adjacent to the citation (or the citation token's own groups), "
+        "closed under strip/slice/or-None and two helpers verified to return substrings of their argument; extent pairing (full span extended "
+        "over the same match on every storing path; party names stored with the start from the same scan); copies between citations only "
+        "under equality of *defined* full-span starts, from the immediately preceding FullCaseCitation.",
+        note="Not decided: that the character ranges coincide (span arithmetic such as len(plaintiff)+1 is value-level; seeded change C17-2 is of that kind and is not detected).",
+        tech="static analysis: provenance grammar over def-use chains with callee summaries, per-path pairing check, typed Optional-operand guard check",
+        ref="DESIGN.md section 2/C17",
+    ),
+    "C19": dict(
+        cat="other",
+        text="Non-interference by def-use: markup text and the two offset translators are read only to derive the cleaned text and on the reference "
+        "paths, tokens come from tokenize(self.plain_text) only; reference paths create only fresh ReferenceCitation objects for a "
+        "FullCaseCitation; both name-pattern sites guard by truthiness + is_valid_name and re.escape; scans start after the citation and all "
+        "stored offsets are rebased / translated back from the translated origin; references never displace other citations (filter rules); the "
+        "current citation is appended last in its iteration.",
+        note="Not decided: offset round trips plain<->markup (diff values); that the style-tag regex finds the right occurrences.",
+        tech="static analysis: attribute def-use over typed receivers, constructor-provenance of appended objects, slice-origin rebasing check, guard extraction",
+        ref="DESIGN.md section 2/C19",
+    ),
 }
 
 NA = {
